@@ -11,10 +11,13 @@ import (
 // alias DAGs are accepted. The engine reports instruction/call-depth budget exhaustion
 // as hang/stack candidates which are confirmed natively under a timeout.
 func VerifC01AliasCycle() {
-	keys := []string{"a", "<<", "x-a", "services"}
+	// ordinary keys, the merge key, and keys that merely contain its two characters
+	keys := []string{"a", "<<", "x-a", "services", "x-<<", "b<<"}
 	scalar := func(v string) *yaml.Node { return &yaml.Node{Kind: yaml.ScalarNode, Tag: "!!str", Value: v} }
 	m0 := &yaml.Node{Kind: yaml.MappingNode, Tag: "!!map", Anchor: "r"}
 	m1 := &yaml.Node{Kind: yaml.MappingNode, Tag: "!!map", Anchor: "c"}
+	// the inner collection is a mapping, a sequence holding its item directly, or a sequence holding a mapping
+	innerKind := vrtChoice("innerCollection", 3)
 	pick := func(tag string) (*yaml.Node, int) {
 		k := vrtChoice(tag, 3)
 		switch k {
@@ -31,7 +34,16 @@ func VerifC01AliasCycle() {
 	vrtAssume(k1 != k2)
 	v3, t3 := pick("v3")
 	v2, t2 := pick("v2")
-	m1.Content = []*yaml.Node{scalar(k3), v3}
+	switch innerKind {
+	case 0:
+		m1.Content = []*yaml.Node{scalar(k3), v3}
+	case 1:
+		m1.Kind, m1.Tag = yaml.SequenceNode, "!!seq"
+		m1.Content = []*yaml.Node{v3}
+	case 2:
+		m1.Kind, m1.Tag = yaml.SequenceNode, "!!seq"
+		m1.Content = []*yaml.Node{{Kind: yaml.MappingNode, Tag: "!!map", Content: []*yaml.Node{scalar(k3), v3}}}
+	}
 	m0.Content = []*yaml.Node{scalar(k1), m1, scalar(k2), v2}
 	cyclic := t3 != 0 || t2 == 2
 	p := &ResetProcessor{visitedNodes: map[*yaml.Node][]string{}}
